@@ -140,6 +140,23 @@ def run(ctx):
                 yield ("c04cfg", {"fn": "config_poll", "a": rng.choice((0, 1, 2, 7)), "b": rng.randrange(0, 1000), "items": keys, "m": 2})
 
     run_batch(ctx, MODULE, CFG, gen(), build.OBSERVERS, sigfn, negfn, chunk=6000)
+
+    # every class/ID the message-ID table knows - with or without a payload definition (the NMEA / RTCM3 pseudo-messages that CFG-MSG
+    # refers to) - as a payload-less message in every mode, by bytes and by integers (and by name where the name is unique),
+    # one after the other in ONE interpreter: neighbouring IDs that share a name must not share a frame
+    def gen_ids():
+        keys = sorted({(m["key"][0], m["key"][1]) for m in defs["msgids"]})
+        names = {}
+        for m in defs["msgids"]:
+            names.setdefault(m["name"], set()).add(tuple(m["key"][:2]))
+        for mode in (0, 1, 2):
+            for (c, i) in keys:
+                nm = names_for(defs, c, i, [])
+                if nm is not None and len(names.get(nm[1], ())) != 1:
+                    nm = None
+                yield ("c04", {"m": mode, "cls": c, "id": i, "name": "%02x%02x" % (c, i), "names": nm, "route": "none", "P": None, "kwargs": None})
+
+    run_batch(ctx, MODULE, CFG, list(gen_ids()), build.OBSERVERS, sigfn, negfn, chunk=6000, parallel=False)
     ctx.exhaustive = False
 
 
